@@ -237,6 +237,12 @@ async fn run_accept_case_async(case: &Val) -> Val {
     let (active_tx, _active_rx) = mpsc::unbounded_channel::<TcpStream>();
     let l4 = tokio::net::TcpListener::bind("127.0.0.1:0").await.unwrap();
     let l6 = tokio::net::TcpListener::bind("[::1]:0").await.ok();
+    let svc = grpc::GrpcService::new(
+        Arc::new(tokio::sync::Notify::new()),
+        active_tx.clone(),
+        global.clone(),
+        tables.clone(),
+    );
     let mut conns: Conns = Conns::new();
     let mut zombies: Vec<TcpStream> = Vec::new();
     for op in l[6].list() {
@@ -284,6 +290,43 @@ async fn run_accept_case_async(case: &Val) -> Val {
                 let mut gw = global.write().await;
                 if let Some(p) = gw.peers.get_mut(&addr) {
                     p.admin_down = ol[2].bool();
+                }
+            }
+            3 | 4 | 5 => {
+                // the operator's enable / disable / delete through the gRPC service methods
+                use api::go_bgp_service_server::GoBgpService;
+                let address = addr.to_string();
+                match ol[0].int() {
+                    3 => {
+                        let _ = svc
+                            .disable_peer(tonic::Request::new(api::DisablePeerRequest {
+                                address,
+                                ..Default::default()
+                            }))
+                            .await;
+                    }
+                    4 => {
+                        let _ = svc
+                            .enable_peer(tonic::Request::new(api::EnablePeerRequest { address }))
+                            .await;
+                    }
+                    _ => {
+                        let _ = svc
+                            .delete_peer(tonic::Request::new(api::DeletePeerRequest {
+                                address,
+                                ..Default::default()
+                            }))
+                            .await;
+                    }
+                }
+                if ol[0].int() != 4 {
+                    // the connection tasks were told to stop: wait for their bookkeeping
+                    for active in [true, false] {
+                        if let Some((client, h)) = conns.remove(&(addr, active)) {
+                            let _ = tokio::time::timeout(Duration::from_secs(5), h).await;
+                            drop(client);
+                        }
+                    }
                 }
             }
             t => panic!("verif: bad op tag {}", t),
